@@ -1530,3 +1530,9 @@ def explore_item_custom(params: Any, tier: str, deadline: float) -> dict:
 
         return explore_item(once, params, bounds(tier, params), deadline, MAX_EXEC_PER_ITEM)
     return run_family(execute, cases(params, tier), deadline)
+
+
+# wave h documentation (what was added to the enumeration; see DESIGN.md 11.0)
+_WAVE_H = '+ fan2: the fanx worlds (all 9 pairs + triples) as the SECOND lifespan run through one dispatcher object (run 1: every mount answers at once)'
+RULE = RULE + " " + _WAVE_H
+BOUNDS_DOC = {k: v + " " + _WAVE_H for k, v in BOUNDS_DOC.items()}
